@@ -22,7 +22,7 @@ Clauses(e) ==
 AllTrue(cl) == \A k \in 1..Len(cl) : cl[k]
 Init == l = 1
 Next == /\ l <= Len(Rec) /\ (AllTrue(Clauses(Rec[l])) = TRUE)
-        /\ (Rec[l].build = "ok" => PrintT(<<"TERMS", ToJson([ev |-> l, items |-> Terms(Rec[l])])>>))
+        /\ ((Rec[l].build = "ok" /\ (IOEnv.TERMS = "all" \/ (l % 9) = 0)) => PrintT(<<"TERMS", ToJson([ev |-> l, items |-> Terms(Rec[l])])>>))
         /\ l' = l + 1
 Spec == Init /\ [][Next]_l
 FirstWrong(e) == IF e.build = "ok" /\ Wrong(e) # {} THEN LET k == CHOOSE k \in Wrong(e) : \A j \in Wrong(e) : k <= j IN
